@@ -7,8 +7,9 @@ import itertools
 
 import numpy as np
 
+from . import argforms_a as af
 from . import qc
-from .c08 import build_state, rho_hat, state_req
+from .c08 import build_state, given_Z, rho_hat, state_req
 from .common import unbits
 from .layouts import LAYOUTS, make_batch, outside_untouched, same_values
 from .qc import torch
@@ -41,15 +42,36 @@ RULE = ("case = (state kind pos/cplx/dens, n<=4 (quick: n = 1,2,3 with every reg
         "ordered pairs) with A as a list, one Eulerian batch of length 4^n whose cyclic neighbours cover every ordered pair once, and "
         "random batches (size 1..9, repeated rows; contiguous / strided-view / transposed memory layout) and Eulerian batches with A in every "
         "accepted form: python int, numpy integer scalars, 0-d ndarray / tensor (singletons), list, tuple, 1-d int64/int32 ndarray / tensor, "
-        "lists of numpy ints / 0-d tensors, slice and range (arithmetic progressions), boolean masks; call histories on one SWAP / state / "
+        "lists of numpy ints / 0-d tensors, range (arithmetic progressions), boolean masks; slices are handed over too but are NOT among the forms the "
+        "property lists (int/list/array/tensor): informational counters only, no verdict; call histories on one SWAP / state / "
         "tensor object; plus a malformed "
         "stream (negative, repeated, out-of-range indices); non-trivial iff n >= 2, A proper non-empty, parameters non-zero; "
-        "distinct by hash of (state, region, form, batch)")
+        "distinct by hash of (state, region, form, batch); "
+        "argument forms (round 5): further integer forms of the region (np.intp / np.uint8 / np.int16 scalars, 0-d int32 ndarray / tensor, lists of np.int32 / "
+        "np.intp / 0-d int32 tensors / mixed element types, tuples of numpy ints / 0-d tensors, intp / int16 / uint32 ndarrays, the empty range; a random "
+        "selection per region in quick, all in thorough), SWAP(A) / SWAP(A=A); the state and RBM constructor sizes and `gpu` are drawn from the state's "
+        "seeded stream `aseed` (harness/argforms_a.py: Python int, numpy integer scalars, 0-d numpy / torch integers; keyword and positional; oracle: "
+        "constructed architecture == requested), the normalisation is handed to probability as tensor / float / np.float64 and `expand` of rho as a truthy "
+        "flag object; a case without `aseed` replays with plain ints / bools by keyword. Left out (the clean code reads them as byte MASKS, torch semantics of "
+        "uint8 indices): uint8 ndarrays / tensors (1-d and 0-d), lists of np.uint8; rejected by torch: int8 / int16 tensors, lists of 0-d ndarrays, sets, floats")
 
 
 SCALAR_FORMS = ("int", "npint", "npint32", "array0", "tensor0")
 SEQ_FORMS = ("list", "tuple", "array", "array32", "tensor", "tensor32", "list_np", "list_t0")
+# round 5 (argument-form sweep): the remaining integer forms `s[:, A]` of the clean library accepts with the meaning "these sites" (probed for every
+# subset of n <= 4 sites on pure and mixed states).  NOT accepted, hence not generated: uint8 ndarray / tensor (1-d or 0-d) and lists of np.uint8
+# (torch reads uint8 indices as a byte MASK: IndexError unless len(A) == n, then silently other sites, with torch's deprecation warning), int8 /
+# int16 tensors and lists of 0-d ndarrays (IndexError / TypeError from torch), sets, Python / numpy floats.
+SCALAR_FORMS_R5 = ("npintp", "npuint8", "npint16", "array0_32", "tensor0_32")
+SEQ_FORMS_R5 = ("list_np32", "list_npintp", "list_t0_32", "list_mixed", "tuple_np", "tuple_t0", "array_intp", "array16", "array_u32")
 MASK_FORMS = ("mask_list", "mask_array", "mask_tensor")
+# The property's quantifier lists the forms of the region: "given as int/list/array/tensor" = a Python / numpy integer, a list / tuple / range of
+# integers, an integer numpy array (incl. 0-d), an integer torch tensor (incl. 0-d) and - coordinator's ruling - boolean MASKS over the sites
+# (they are of the documented container types list / np.array / torch.Tensor, the clean code handles them, and a change that silently swaps
+# another region for them is a regression: seeded M3_C09_2, M4_C09_1).  A Python `slice` happens to work with `s[:, A]` of the present code but
+# is not a documented type: a rewrite that normalises the region through `operator.index` raises TypeError for it, loudly, and keeps the
+# property.  The slice form is still handed over (an outcome that changes is counted) but carries NO verdict of any level.
+INFO_FORMS = ("slice",)
 
 
 def slice_for(A, n, rng):
@@ -77,20 +99,22 @@ def slice_for(A, n, rng):
     return sl
 
 
-def region_forms(A, n, rng):
+def region_forms(A, n, rng, extra=None):
     """every way of passing the region that `s[:, A]` of the unchanged library accepts with the meaning 'these sites':
     scalars (python int, numpy integer scalars, 0-d ndarray, 0-d tensor) for singletons; list, tuple, 1-d ndarray (int64/int32),
     1-d tensor (int64/int32), list of numpy ints / of 0-d tensors; slice and range for arithmetic progressions; boolean masks of
-    length n (list / ndarray / tensor).  -> [(form, slice triple or None)]"""
+    length n (list / ndarray / tensor); plus `extra` of the round-5 sequence forms and (singletons) `extra // 2` of the round-5 scalar forms
+    (None: all of them).  -> [(form, slice triple or None)]"""
     A = list(A)
     forms = [(f, None) for f in SEQ_FORMS]
+    forms += [(f, None) for f in (SEQ_FORMS_R5 if extra is None else rng.sample(SEQ_FORMS_R5, min(extra, len(SEQ_FORMS_R5))))]
     if len(A) == 1:
         forms += [(f, None) for f in SCALAR_FORMS]
+        forms += [(f, None) for f in (SCALAR_FORMS_R5 if extra is None else rng.sample(SCALAR_FORMS_R5, min(max(1, extra // 2), len(SCALAR_FORMS_R5))))]
     sl = slice_for(A, n, rng)
     if sl is not None:
         forms.append(("slice", list(sl)))
-        if A:
-            forms.append(("range", None))
+        forms.append(("range", None))      # the empty region as range(0)
     if n > 0:
         forms += [(f, None) for f in MASK_FORMS]
     return forms
@@ -126,10 +150,38 @@ def mk_region(form, lst, n=None, sl=None):
         return [np.int64(k) for k in lst]
     if form == "list_t0":
         return [torch.tensor(k) for k in lst]
+    if form == "npintp":
+        return np.intp(lst[0])
+    if form == "npuint8":
+        return np.uint8(lst[0]) if 0 <= lst[0] < 256 else np.int64(lst[0])
+    if form == "npint16":
+        return np.int16(lst[0])
+    if form == "array0_32":
+        return np.array(lst[0], dtype=np.int32)
+    if form == "tensor0_32":
+        return torch.tensor(lst[0], dtype=torch.int32)
+    if form == "list_np32":
+        return [np.int32(k) for k in lst]
+    if form == "list_npintp":
+        return [np.intp(k) for k in lst]
+    if form == "list_t0_32":
+        return [torch.tensor(k, dtype=torch.int32) for k in lst]
+    if form == "list_mixed":
+        return [(k, np.int64(k), np.int32(k), torch.tensor(k), np.intp(k))[(i + len(lst)) % 5] for i, k in enumerate(lst)]
+    if form == "tuple_np":
+        return tuple(np.int64(k) for k in lst)
+    if form == "tuple_t0":
+        return tuple(torch.tensor(k) for k in lst)
+    if form == "array_intp":
+        return np.array(lst, dtype=np.intp)
+    if form == "array16":
+        return np.array(lst, dtype=np.int16)
+    if form == "array_u32":
+        return np.array(lst, dtype=np.uint32) if all(k >= 0 for k in lst) else np.array(lst, dtype=np.int64)
     if form == "slice":
         return slice(*sl)
     if form == "range":
-        return range(lst[0], lst[-1] + 1, (lst[1] - lst[0]) if len(lst) > 1 else 1)
+        return range(lst[0], lst[-1] + 1, (lst[1] - lst[0]) if len(lst) > 1 else 1) if lst else range(0)
     mask = [j in lst for j in range(n)]
     if form == "mask_list":
         return mask
@@ -184,7 +236,8 @@ def purity_np(R, n, A):
     return np.trace(rA @ rA)
 
 
-def impl_swap(st, region, samples, layout="contig"):
+def impl_swap(st, region, samples, layout="contig", kw=False):
+    """`kw`: hand the region over by keyword, SWAP(A=region) (cases of round 5, batches of odd length), instead of positionally"""
     from qucumber.observables import SWAP
 
     n = len(samples[0]) if samples else 0
@@ -192,7 +245,7 @@ def impl_swap(st, region, samples, layout="contig"):
     before = t.numpy().tobytes()
     same = lambda: t.numpy().tobytes() == before and outside_untouched(backing, layout)  # noqa: E731
     try:
-        r = SWAP(region).apply(st, t)
+        r = (SWAP(A=region) if kw and len(samples) % 2 else SWAP(region)).apply(st, t)
         ok_shape = isinstance(r, torch.Tensor) and tuple(r.shape) == (len(samples),) and r.dtype == torch.float64
         vals = r.detach().numpy().astype(np.float64).ravel().tolist()
     except Exception as e:  # noqa: BLE001
@@ -209,7 +262,16 @@ def one_apply(ctx, st, base, form, region_list, samples, level="property", regis
     if layout != "contig":
         case["layout"] = layout
     region = mk_region(form, region_list, n, sl)
-    vals, ok_shape, unchanged, after = impl_swap(st, region, samples, layout)
+    if form in INFO_FORMS:
+        # not a form of the property's quantifier (see INFO_FORMS): applied, the outcome class is counted, no verdict
+        vals = impl_swap(st, region, samples, layout)[0]
+        want = impl_swap(st, sorted({k % n for k in region_sites(form, region_list, n, sl) if -n <= k < n}) if n else [], samples, layout)[0]
+        ctx.count(f"form={form} (informational, not a listed form): " + ("raises" if isinstance(vals, dict) else
+                                                                          "same values as the list of sites" if same_values(vals, want) else "other values"))
+        return vals
+    vals, ok_shape, unchanged, after = impl_swap(st, region, samples, layout, kw=base.get("aseed") is not None)
+    if base.get("aseed") is not None and len(samples) % 2:
+        ctx.count("argform/region by keyword: SWAP(A=...)")
     region_list = region_sites(form, region_list, n, sl)
     if register:
         A = sorted({k % n for k in region_list if -n <= k < n}) if n else []
@@ -241,17 +303,50 @@ def one_apply(ctx, st, base, form, region_list, samples, level="property", regis
     return vals
 
 
-def one_state(ctx, kind, n, h, a, scale, am, ph, thorough, regions=None):
-    """`regions`: the list of regions to run (default: every subset of the sites)"""
+def build_checked(ctx, base, AF):
+    """the state of `base` with every constructor size / `gpu` in the forms of the stream AF, or None if the constructed architecture is not
+    the requested one (reported as a property oracle; the rest of the case cannot be evaluated then)"""
+    kind, n, h, a = base["kind"], base["n"], base["h"], base["a"]
+    st = build_state(kind, n, h, a, base["am"], base["ph"], A=AF)
+    ok = af.check_sizes(ctx, st, (n, h, a) if kind == "dens" else (n, h), base, AF, f"{kind}/ctor-sizes",
+                        "C09_purity (stated for the state of the architecture the caller asked for)")
+    return st if ok else None
+
+
+def exact_weights(ctx, st, base, AF):
+    """(p, R): the exact basis-state distribution probability(space, Z) - Z handed over as tensor / float / np.float64, keyword or positional -
+    and the normalised density matrix from psi / rho(space, space, expand=<true object>); None if a call does not return what its
+    documentation promises for these objects (reported)"""
+    kind, n = base["kind"], base["n"]
+    space_t = torch.tensor(qc.all_states(n), dtype=torch.double)
+    pt, zform = given_Z(AF, st, space_t, st.normalization(space_t))
+    p = pt.detach().numpy()
+    R = rho_hat(st, kind, n, AF)
+    ok = R is not None and p.shape == (2 ** n,) and bool(np.allclose(p, np.real(np.diag(R)), rtol=1e-8, atol=1e-12))
+    ctx.oracle("probability(space, Z) is the diagonal of the normalised state (Z / expand handed over in the case's forms)", ok, base,
+               detail={"Z_given_as": zform, "given_as": AF.used(), "rho_shape_ok": R is not None}, sig=f"{kind}/born", theorem="C09_purity")
+    AF.count_into(ctx)
+    return (p, R) if ok else None
+
+
+def one_state(ctx, kind, n, h, a, scale, am, ph, thorough, regions=None, aseed=None):
+    """`regions`: the list of regions to run (default: every subset of the sites); `aseed`: seed of the state's argument-form stream
+    (constructor sizes, gpu, Z, expand; None: plain ints / bools by keyword, the calls made before round 5)"""
     base = {"kind": kind, "n": n, "h": h, "a": a, "scale": scale, "am": am, "ph": ph}
-    st = build_state(kind, n, h, a, am, ph)
+    if aseed is not None:
+        base["aseed"] = aseed
+    ctx.current_case = base
+    AF = af.Args(aseed)
+    st = build_checked(ctx, base, AF)
+    if st is None:
+        return
     rng = ctx.rng
     states = qc.all_states(n)
     N = len(states)
-    space_t = torch.tensor(states, dtype=torch.double)
-    Z = float(st.normalization(space_t))
-    p = st.probability(space_t, Z).detach().numpy()
-    R = rho_hat(st, kind, n)
+    pr = exact_weights(ctx, st, base, AF)
+    if pr is None:
+        return
+    p, R = pr
     if kind == "dens":
         # which side of the hypothesis of C09_renyi_nonneg_mixed_rbm the case lies on: C02_NZ_of_phase_weights_small (sum_j |U_mu kj| < 2 pi
         # for every auxiliary unit) is sufficient for the guard NZ; the oracle below is evaluated on the implementation either way
@@ -301,11 +396,13 @@ def one_state(ctx, kind, n, h, a, scale, am, ph, thorough, regions=None):
         pool = [rng.choice(states) for _ in range(max(1, B - 2))]
         batch = [list(rng.choice(pool)) for _ in range(B)]
         ref = None
-        for form, sl in region_forms(A, n, rng):
+        for form, sl in region_forms(A, n, rng, extra=None if thorough else 4):
             lay = rng.choice(LAYOUTS)    # the batch as a contiguous tensor / strided view of a larger buffer / transposed
             vals = one_apply(ctx, st, base, form, A, batch, sl=sl, layout=lay)
             fcase = {**base, "form": form, "region": A, "samples": batch, **({"slice": sl} if sl is not None else {}),
                      **({"layout": lay} if lay != "contig" else {})}
+            if form in INFO_FORMS:
+                continue
             if ref is None:
                 ref = vals
             else:
@@ -352,7 +449,8 @@ def one_state(ctx, kind, n, h, a, scale, am, ph, thorough, regions=None):
     # --- call history on the same objects
     for _ in range(3 if thorough else 2):
         A = rng.choice(subsets)
-        form, sl = rng.choice(region_forms(A, n, rng))
+        form, sl = rng.choice([fs for fs in region_forms(A, n, rng) if fs[0] not in INFO_FORMS])
+        ctx.current_case = base
         history_probe(ctx, gen_history(rng, base, form, A, sl, states))
 
 
@@ -380,7 +478,13 @@ def history_probe(ctx, case):
 
     kind, n, h, a = case["kind"], case["n"], case["h"], case["a"]
     form, A, sl = case["form"], case["region"], case.get("slice")
-    st = build_state(kind, n, h, a, case["am"], case["ph"])
+    if form in INFO_FORMS:      # a history stored by an earlier round with a form outside the property's quantifier: no verdict
+        ctx.count(f"history_probe with form={form} (informational, not a listed form): skipped")
+        return
+    AF = af.Args(case.get("aseed"))
+    st = build_checked(ctx, {k: case[k] for k in ("kind", "n", "h", "a", "scale", "am", "ph", "aseed") if k in case}, AF)
+    if st is None:
+        return
     obs = SWAP(mk_region(form, A, n, sl))
     sites = region_sites(form, A, n, sl)
     b = case["batches"]
@@ -423,7 +527,11 @@ def history_probe(ctx, case):
                 ctx.point("history: SWAP.apply", "property", vals, m, sub, scale=max(1.0, float(np.max(np.abs(m)))),
                           theorem=THEOREMS["apply"], sig=f"{kind}/swap/history")
         # secondary (metamorphic, used by the model-free search): a fresh observable on a fresh copy of state and batch
-        fresh = impl_swap(build_state(kind, n, h, a, am, ph), mk_region(form, A, n, sl), content)[0]
+        fresh_st = build_checked(ctx, {**{k: case[k] for k in ("kind", "n", "h", "a", "scale", "aseed") if k in case}, "am": am, "ph": ph}, AF)
+        AF.count_into(ctx)
+        if fresh_st is None:
+            return
+        fresh = impl_swap(fresh_st, mk_region(form, A, n, sl), content)[0]
         ctx.oracle("history: same objects evaluated again == fresh objects with the current parameters and content", same_values(vals, fresh), sub,
                    detail={"reused": vals, "fresh": fresh}, sig=f"{kind}/swap/history-oracle", theorem=THEOREMS["apply"])
 
@@ -480,14 +588,14 @@ def run(ctx):
     ctx.rule = RULE
     thorough = ctx.tier == "thorough"
     for args in gen_states(ctx, thorough):
-        one_state(ctx, *args[:7], thorough, regions=(args[7] if len(args) > 7 else None))
+        one_state(ctx, *args[:7], thorough, regions=(args[7] if len(args) > 7 else None), aseed=af.draw_aseed(ctx.rng))
 
 
 def search(ctx):
     drv, ctx.driver = ctx.driver, None
     try:
         for args in gen_states(ctx, True):
-            one_state(ctx, *args, True)
+            one_state(ctx, *args, True, aseed=af.draw_aseed(ctx.rng))
     finally:
         ctx.driver = drv
 
@@ -497,18 +605,30 @@ def replay(ctx, case):
         history_probe(ctx, {k: v for k, v in case.items() if k != "step"})
         return
     base = {k: case[k] for k in ("kind", "n", "h", "a", "scale", "am", "ph")}
-    st = build_state(case["kind"], case["n"], case["h"], case["a"], case["am"], case["ph"])
+    if case.get("aseed") is not None:
+        base["aseed"] = case["aseed"]
+    ctx.current_case = base
+    AF = af.Args(case.get("aseed"))
+    st = build_checked(ctx, base, AF)
+    if st is None:
+        return
+    if "form" not in case:       # a case reported by the constructor / normalisation oracles: the state alone
+        exact_weights(ctx, st, base, AF)
+        return
     sl = case.get("slice")
     vals = one_apply(ctx, st, base, case["form"], case["region"], case["samples"], sl=sl, layout=case.get("layout", "contig"))
+    if case["form"] in INFO_FORMS:
+        return
     # re-evaluate the exact-average property for this region, given in this form, on the implementation
     n = case["n"]
     sites = region_sites(case["form"], case["region"], n, sl)
     A = sorted({k % n for k in sites if -n <= k < n}) if n else []
     if not isinstance(vals, dict) and all(-n <= k < n for k in sites):
         states = qc.all_states(n)
-        space_t = torch.tensor(states, dtype=torch.double)
-        p = st.probability(space_t, float(st.normalization(space_t))).detach().numpy()
-        R = rho_hat(st, case["kind"], n)
+        pr = exact_weights(ctx, st, base, AF)
+        if pr is None:
+            return
+        p, R = pr
         tot = 0.0
         for x in range(len(states)):
             for y in range(len(states)):
